@@ -356,6 +356,15 @@ def apply(mid: str, m: dict, i: int):
     if mid == "bind_suffix_not_a_name":
         r["bind::a<b"] = "x"
         return ["a<b"]
+    if mid == "bind_nodeset_column":
+        r["bind::nodeset"] = "/data/elsewhere"
+        return []
+    if mid == "body_ref_column":
+        r["body::ref"] = "/data/elsewhere"
+        return []
+    if mid == "body_nodeset_column":
+        r["body::nodeset"] = "/data/elsewhere"
+        return []
     if mid == "bind_suffix_undeclared_prefix":
         r["bind::nope:attr"] = "x"
         return ["nope"]
